@@ -645,7 +645,7 @@ func execTwin(cfg *Cfg, o *harness.Outcome) {
 	env.Clock.OnSleep = func(d time.Duration) { waited += d }
 	perRes := len(cfg.Others)%2 == 1
 	yFirst := cfg.P2%2 == 0
-	variant := (cfg.P1 + cfg.P2 + len(cfg.Others)) % 3 // 0: Y has its own ID; 1: Y has no ID; 2: see stolen below
+	variant := (cfg.P1 + cfg.P2 + len(cfg.Others)) % 4 // 0: Y has its own ID; 1: Y has no ID; 2: see twinStolen; 3: renamed
 	if variant == 2 && cfg.Kind == kStandalone {
 		twinStolen(cfg, o, perRes, yFirst)
 		return
@@ -723,6 +723,23 @@ func execTwin(cfg *Cfg, o *harness.Outcome) {
 		return
 	}
 	o.Probe("twin_rule_added_then_original_removed")
+	if variant == 3 {
+		// X is renamed to B (same fields: B continues X and keeps its state); a new rule takes the name X; it is
+		// removed again. B was in every one of these lists unchanged: it still holds back the next request.
+		loadIDs("B")
+		if yFirst {
+			loadIDs("X", "B")
+		} else {
+			loadIDs("B", "X")
+		}
+		loadIDs("B")
+		adm, wait := request(false)
+		o.Nontrivial = true
+		if adm && wait == 0 {
+			o.Fail("C14.unchanged-rule-lost-its-state-to-a-namesake", 0, "rule X (kind %d) was driven until it held back the next request and renamed to B by a load that changed nothing else; a new rule with the same fields was added under the old name X (listed %s B) and removed again. B was unchanged in all these loads, yet the next request is admitted without waiting: B's state went to the rule that took its old name", cfg.Kind, map[bool]string{true: "before", false: "after"}[yFirst])
+		}
+		return
+	}
 	if yFirst {
 		loadIDs("Y", "X")
 	} else {
